@@ -71,6 +71,15 @@ Qed.
 Lemma to_nat_pos x : 0 < x -> Z.to_nat x = S (Z.to_nat (x - 1)).
 Proof. intros; lia. Qed.
 
+(* a callback that never panics *)
+Lemma panics_now_false fl calls : cb_panics fl = false -> panics_now fl calls = false.
+Proof.
+  unfold cb_panics, panics_now, fails_now. destruct (fail_panic fl); [|reflexivity].
+  destruct (fail_at fl); simpl; [discriminate|reflexivity].
+Qed.
+Lemma never_panics_now calls : panics_now never_fails calls = false.
+Proof. reflexivity. Qed.
+
 Section Generic.
   Context {St : Type} (ae : bool) (nx : St -> ret Z St).
   Variables (den : St -> list Z) (fin ok : St -> Prop).
@@ -171,24 +180,32 @@ Section GenericIter.
   Variables (den : St -> list Z) (fin ok : St -> Prop).
   Hypothesis Hnx : contract ae nx den fin ok.
 
-  (* Filter *)
-  Lemma ifilter_ok n keep :
-    contract ae (ifilter nx n keep) (fun s => filter (pred_eval keep) (den s)) fin ok.
+  Definition w2ok {B} (w : B * St) : Prop := ok (snd w).
+  Definition w2fin {B} (w : B * St) : Prop := fin (snd w).
+
+  (* Filter (a callback that never panics) *)
+  Lemma ifilter_ok n keep fl : cb_panics fl = false ->
+    contract ae (fun w => ifilter nx n keep fl (fst w) (snd w))
+             (fun w => filter (pred_eval keep) (den (snd w))) w2fin w2ok.
   Proof.
-    unfold contract. induction n as [|n IH]; intros s o s' ev Hok Hc; simpl in *.
+    intros Hfl. unfold contract, w2fin, w2ok.
+    induction n as [|n IH]; intros [calls s] o w' ev Hok Hc; simpl in *.
     - inv_ret Hc. simpl. auto.
     - destruct (nx s) as [[o1 s1] ev1] eqn:E.
       destruct (Hnx _ _ _ _ Hok E) as (Hok1 & Hp & Hf).
       destruct o1 as [x| | | |]; simpl in Hp.
       + assert (Hnf : fin s -> False) by (intros Hfin; destruct (Hf Hfin) as [_ []]).
+        rewrite (panics_now_false fl calls Hfl) in Hc.
         destruct (pred_eval keep x) eqn:Ek.
         * inv_ret Hc. simpl. rewrite Hp. simpl. rewrite Ek.
           split; [exact Hok1|]. split; [reflexivity|]. intros Hfin; destruct (Hnf Hfin).
-        * destruct (ifilter nx n keep s1) as [[o2 s2] ev2] eqn:E2. simpl in Hc. inv_ret Hc.
-          destruct (IH _ _ _ _ Hok1 E2) as (Hok2 & Hp2 & Hf2).
+        * destruct (ifilter nx n keep fl (S calls) s1) as [[o2 w2] ev2] eqn:E2.
+          simpl in Hc. inv_ret Hc.
+          destruct (IH (S calls, s1) _ _ _ Hok1 E2) as (Hok2 & Hp2 & Hf2).
           split; [exact Hok2|]. split; [|intros Hfin; destruct (Hnf Hfin)].
-          apply (post_shift ae (fun s => filter (pred_eval keep) (den s)) _ s s1); [|exact Hp2].
-          rewrite Hp. simpl. rewrite Ek. reflexivity.
+          apply (post_shift ae (fun w : nat * St => filter (pred_eval keep) (den (snd w))) _
+                            (calls, s) (S calls, s1)); [|exact Hp2].
+          simpl. rewrite Hp. simpl. rewrite Ek. reflexivity.
       + inv_ret Hc. simpl. destruct Hp as (Hd & Hd' & Hfin). rewrite Hd, Hd'.
         split; [exact Hok1|]. split; auto.
       + inv_ret Hc. simpl. destruct Hp as [Hae Hd]. rewrite Hd.
@@ -199,12 +216,15 @@ Section GenericIter.
   Qed.
 
   (* Map *)
-  Lemma imap_ok f : contract ae (imap nx f) (fun s => map (fn_eval f) (den s)) fin ok.
+  Lemma imap_ok f fl : cb_panics fl = false ->
+    contract ae (fun w => imap nx f fl (fst w) (snd w))
+             (fun w => map (fn_eval f) (den (snd w))) w2fin w2ok.
   Proof.
-    unfold contract, imap. intros s o s' ev Hok Hc.
-    destruct (nx s) as [[o1 s1] ev1] eqn:E.
+    intros Hfl. unfold contract, imap, w2fin, w2ok. intros [calls s] o w' ev Hok Hc.
+    simpl in *. destruct (nx s) as [[o1 s1] ev1] eqn:E.
     destruct (Hnx _ _ _ _ Hok E) as (Hok1 & Hp & Hf).
-    destruct o1 as [x| | | |]; simpl in Hp; inv_ret Hc; simpl.
+    destruct o1 as [x| | | |]; simpl in Hp;
+      [rewrite (panics_now_false fl calls Hfl) in Hc| | | |]; inv_ret Hc; simpl.
     - rewrite Hp. split; [exact Hok1|]. split; [reflexivity|].
       intros Hfin; destruct (Hf Hfin) as [_ []].
     - destruct Hp as (Hd & Hd' & Hfin). rewrite Hd, Hd'. split; [exact Hok1|]. split; auto.
@@ -214,22 +234,23 @@ Section GenericIter.
     - split; [exact Hok1|]. split; [auto|]. intros Hfin; destruct (Hf Hfin); auto.
   Qed.
 
-  (* While *)
-  Definition wden (f : pred) (w : bool * St) : list Z :=
-    if fst w then [] else takewhile (pred_eval f) (den (snd w)).
-  Definition wfin (w : bool * St) : Prop := fst w = true \/ fin (snd w).
-  Definition w2ok {B} (w : B * St) : Prop := ok (snd w).
+  (* While; state (calls, done, inner) *)
+  Definition wden (f : pred) (w : nat * bool * St) : list Z :=
+    if snd (fst w) then [] else takewhile (pred_eval f) (den (snd w)).
+  Definition wfin (w : nat * bool * St) : Prop := snd (fst w) = true \/ fin (snd w).
 
-  Lemma iwhile_ok f :
-    contract ae (fun w => iwhile nx f (fst w) (snd w)) (wden f) wfin w2ok.
+  Lemma iwhile_ok f fl : cb_panics fl = false ->
+    contract ae (fun w => iwhile nx f fl (fst (fst w)) (snd (fst w)) (snd w)) (wden f) wfin w2ok.
   Proof.
-    unfold contract, iwhile, wden, wfin, w2ok. intros [done s] o w' ev Hok Hc. simpl in *.
+    intros Hfl. unfold contract, iwhile, wden, wfin, w2ok.
+    intros [[calls done] s] o w' ev Hok Hc. simpl in *.
     destruct done.
     - inv_ret Hc. simpl. split; [exact Hok|]. split; auto.
     - destruct (nx s) as [[o1 s1] ev1] eqn:E.
       destruct (Hnx _ _ _ _ Hok E) as (Hok1 & Hp & Hf).
       destruct o1 as [x| | | |]; simpl in Hp.
-      + destruct (pred_eval f x) eqn:Ef; inv_ret Hc; simpl.
+      + rewrite (panics_now_false fl calls Hfl) in Hc.
+        destruct (pred_eval f x) eqn:Ef; inv_ret Hc; simpl.
         * rewrite Hp. simpl. rewrite Ef. split; [exact Hok1|]. split; [reflexivity|].
           intros [Hd|Hfin]; [discriminate|]. destruct (Hf Hfin) as [_ []].
         * rewrite Hp. simpl. rewrite Ef. split; [exact Hok1|]. split; auto.
